@@ -1,1 +1,2 @@
 pub mod expr;
+pub mod sysenum;
